@@ -148,3 +148,117 @@ func cmdTemplates(args []string) {
 	}
 	println(len(ts), "templates")
 }
+
+func parseJobs(props []string, tier string) []*Job {
+	var out []*Job
+	nmax := 3
+	if tier == "thorough" {
+		nmax = 4
+	}
+	for n := 0; n <= nmax; n++ {
+		j := jobOf("VerifParse", props, "n", itoa(n))
+		j.WitEvery = 97
+		out = append(out, j)
+	}
+	// longer sentences over sub-alphabets (see h_parse.go verifSymTokens)
+	sub := map[int][2]int{1: {5, 7}, 2: {6, 9}, 3: {5, 7}, 4: {5, 7}}
+	for _, a := range []int{1, 2, 3, 4} {
+		lim := sub[a][0]
+		if tier == "thorough" {
+			lim = sub[a][1]
+		}
+		for n := nmax + 1; n <= lim; n++ {
+			j := jobOf("VerifParse", props, "n", itoa(n), "alpha", itoa(a))
+			j.WitEvery = 197
+			out = append(out, j)
+		}
+	}
+	return out
+}
+
+func lexJobs(props []string, entry string, tier string) []*Job {
+	var out []*Job
+	nmax := 3
+	if tier == "thorough" {
+		nmax = 4
+	}
+	for n := 0; n <= nmax; n++ {
+		j := jobOf(entry, props, "N", itoa(n))
+		j.WitEvery = 97
+		j.Unwind = 3*n + 16
+		out = append(out, j)
+	}
+	return out
+}
+
+func parseBounds(tier string) map[string]interface{} {
+	if tier == "thorough" {
+		return map[string]interface{}{"tokens_full_alphabet": "n <= 4 (all 30 token types symbolic)", "tokens_sub_alphabets": "brackets/slices n<=7, hash n<=9, calls n<=7, operators n<=7",
+			"expression_bytes": "N <= 4 arbitrary bytes (Compile, tokenize)", "number_payload": "2 symbolic characters (-|digit)digit"}
+	}
+	return map[string]interface{}{"tokens_full_alphabet": "n <= 3 (all 30 token types symbolic)", "tokens_sub_alphabets": "brackets/slices n<=5, hash n<=6, calls n<=5, operators n<=5",
+		"expression_bytes": "N <= 3 arbitrary bytes (Compile, tokenize)", "number_payload": "2 symbolic characters (-|digit)digit"}
+}
+
+func init() {
+	parseOutside := []string{"token sequences longer than the bounds", "expressions longer than N bytes at byte level", "integers that do not fit int64 (grammatical, rejected: implementation limit)"}
+	specs["C04"] = &CheckSpec{Prop: "C04", Level: "model_checking",
+		Jobs: func(tier string) []*Job {
+			return append(parseJobs([]string{"C04"}, tier), lexJobs([]string{"C04"}, "VerifCompile", tier)...)
+		},
+		Bounds: parseBounds, Assumptions: commonAssumptions, Outside: parseOutside,
+		Explain: "the real Parser.Parse on symbolic token sequences: accepted iff the CYK circuit of the JMESPath grammar accepts, and every accepted AST is well formed; Compile on symbolic bytes",
+	}
+	specs["C03"] = &CheckSpec{Prop: "C03", Level: "model_checking",
+		Jobs: func(tier string) []*Job {
+			js := parseJobs([]string{"C03"}, tier)
+			pj := evalJobs("C03", familyPrec(tier), 2, 1, 1, []string{"a", "b", "c", "d"})
+			for _, j := range pj {
+				j.InnerKeys = []string{"b", "c"}
+			}
+			js = append(js, pj...)
+			return js
+		},
+		Bounds: parseBounds, Assumptions: commonAssumptions, Outside: parseOutside,
+		Explain: "the AST of every accepted symbolic token sequence equals the AST of a reference parser written from the precedence table; unparenthesised operator mixes evaluate like their specified grouping on every document",
+	}
+	specs["C17"] = &CheckSpec{Prop: "C17", Level: "model_checking", Panics: true,
+		Jobs: func(tier string) []*Job {
+			js := lexJobs([]string{"C17"}, "VerifCompile", tier)
+			js = append(js, lexJobs([]string{"C17"}, "VerifLex", tier)...)
+			return append(js, parseJobs([]string{"C17"}, tier)...)
+		},
+		Bounds: parseBounds, Assumptions: commonAssumptions, Outside: parseOutside,
+		Explain: "Compile/MustCompile result contract, SyntaxError fields, caret rendering on symbolic bytes; parser error offsets are token positions on symbolic token sequences",
+	}
+	specs["C05"] = &CheckSpec{Prop: "C05", Level: "model_checking", Panics: true,
+		Jobs: func(tier string) []*Job {
+			js := lexJobs([]string{"C05"}, "VerifLex", tier)
+			js = append(js, lexJobs([]string{"C05"}, "VerifCompile", tier)...)
+			js = append(js, parseJobs([]string{"C05"}, tier)...)
+			L := 6
+			if tier == "thorough" {
+				L = 12
+			}
+			sk := jobOf("VerifSliceKernel", []string{"C05"}, "L", itoa(L))
+			sk.Unwind = L + 2
+			js = append(js, sk)
+			keys := []string{"a", "b"}
+			js = append(js, evalJobs("C05", familyCore(tier), 2, 2, 1, keys)...)
+			js = append(js, evalJobs("C05", familyProj(tier), 2, 2, 1, keys)...)
+			js = append(js, evalJobs("C05", familyFunc(tier), 2, 3, 1, keys)...)
+			js = append(js, evalJobs("C05", familyCtx(tier), 2, 2, 1, keys)...)
+			js = append(js, evalJobs("C05", familyBool("quick"), 2, 2, 1, keys)...)
+			return js
+		},
+		Bounds: func(tier string) map[string]interface{} {
+			b := parseBounds(tier)
+			b["evaluation"] = "template families CORE, PROJ, FUNC, CTX, BOOL on documents of depth 2, arrays <= 2 (3 for functions), free 64-bit integers"
+			b["loop_budget"] = "every loop: at most max(64, 2*len(expression)+16) iterations per activation (lexer: 3N+16); recursion depth 400; exceeding it is a reported failure"
+			return b
+		},
+		Assumptions: commonAssumptions,
+		Outside: []string{"expressions longer than the byte/token bounds (the property mentions 64 KiB)", "stack exhaustion on deeply nested input", "panics inside stubbed standard-library calls other than their documented ones", "time/memory beyond the per-loop budgets"},
+		Explain: "the implicit obligations of every harness: no panic site reachable (bounds, nil, type assertion, uncomparable ==, division, explicit panic) and no loop beyond its budget, over symbolic bytes, token sequences, integers and documents",
+	}
+}
